@@ -623,6 +623,9 @@ class AgentsMgt(MessagePassingComputation):
 
         # To wait for agent when stopping
         self._all_agt_stopped = threading.Event()
+        # Set once agents have been requested to stop: an agent registering
+        # after that point must be asked to stop too.
+        self._stop_requested = False
 
         # metrics
         # Storing metrics for agent across several cycles :
@@ -717,6 +720,13 @@ class AgentsMgt(MessagePassingComputation):
             self._send_mgt_msg(
                 agent, SetMetricsModeMessage(self._collect_moment,
                                              self._collect_period))
+            if self._stop_requested:
+                # This agent (e.g. an agent hosting no computation, which is
+                # not waited for before deploying and running) registers
+                # while we are already stopping: it would never stop.
+                self.logger.info('Agent %s registered after the stop '
+                                 'request, stopping it', agent)
+                self._send_mgt_msg(agent, StopAgentMessage())
 
             missing = []
             for agt in self.initial_dist.agents:
@@ -1182,6 +1192,7 @@ class AgentsMgt(MessagePassingComputation):
 
         Careful : This must be called from the orchestrator's agent thread.
         """
+        self._stop_requested = True
         active_agents = self.discovery.agents()
         if not active_agents:
             self.logger.info('No agents to stop')
